@@ -602,16 +602,20 @@ func TestC30Preemptions(tt *testing.T) {
 		slots  []int // write-outs (slot offsets; 288 = next day)
 		reader string
 		lowmem bool
+		bound  bool // the requested range ends on the pre-existing block (every write-out lies behind it)
 	}
 	scenarios := []scenario{
-		{"append-to-day/query", []int{1}, "query", true},
-		{"append-to-day/query-readall", []int{1}, "query", false},
-		{"new-day/query", []int{288}, "query", true},
-		{"append-to-day/list", []int{1}, "list", true},
-		{"two-appends/query", []int{1, 1}, "query", true},
+		{"append-to-day/query", []int{1}, "query", true, false},
+		{"append-to-day/query-readall", []int{1}, "query", false, false},
+		{"new-day/query", []int{288}, "query", true, false},
+		{"append-to-day/list-range-ends-before-write-out", []int{1}, "list", true, true},
+		{"append-to-day/list", []int{1}, "list", true, false},
+		{"two-appends/query", []int{1, 1}, "query", true, false},
+		{"append-to-day/query-range-ends-before-write-out", []int{1}, "query", true, true},
+		{"new-day/list-range-ends-before-write-out", []int{288}, "list", true, true},
 	}
 	if !evid.Thorough() {
-		scenarios = scenarios[:3]
+		scenarios = scenarios[:4]
 	}
 	inF28 := evid.IsOpen("C30-F28")
 	run := func(sc scenario, phases []phase) outcome {
@@ -632,7 +636,11 @@ func TestC30Preemptions(tt *testing.T) {
 		}
 		var oc outcome
 		synctest.Test(tt, func(_ *testing.T) {
-			oc = runBubble(dir, pre, outs, sc.reader, 1, sc.lowmem, phases, []int{0}, 0, false)
+			var bound int64
+			if sc.bound {
+				bound = pre.Ts
+			}
+			oc = runBubble(dir, pre, outs, sc.reader, 1, sc.lowmem, phases, []int{0}, 0, false, bound)
 		})
 		return oc
 	}
